@@ -1,5 +1,5 @@
 #!/usr/bin/env python3
-"""rules_selftest -- the rewrite rules that change executable text beyond renaming (R2, R4, R14, R17, R18, R19, R21)
+"""rules_selftest -- the rewrite rules that change executable text beyond renaming (R2, R4, R14, R17, R18, R19, R21, R22)
 are applied to tools/rules_selftest/cases.rs; the original and the rewritten program are compiled with rustc
 and must print the same output. (The rules are also type-checked by Verus on every run; this checks that they
 preserve BEHAVIOUR on code shaped like the code they are used on.)"""
@@ -21,7 +21,7 @@ def rewrite(text):
     """apply the rules item by item (impl items: member fns; fn items: the fn itself), like gen.build_item"""
     toks = rsx.tokenize(text)
     out, pos = [], 0
-    headers = ["impl Acc", "pub fn feed", "pub fn bump", "pub fn bump2", "pub fn enter"]
+    headers = ["impl Acc", "pub fn feed", "pub fn bump", "pub fn bump2", "pub fn enter", "pub fn tally"]
     spans = []
     for h in headers:
         for (s, e, _, _) in rsx.find_items(text, toks, h):
@@ -41,6 +41,7 @@ def rewrite(text):
         rules.r14_wild_params(item, m, ed, fns)
         renamed = rules.r17_mut_self(item, m, ed, fns)
         rules.r18_for_in_mut(item, m, ed, fns, renamed)
+        rules.r22_for_by_value_continue(item, m, ed, fns)
         # R19 as gen.py does it for `@optmap \`self.v.pop().map(|c| \``
         head = "self.v.pop().map(|c| "
         if head in item:
@@ -60,7 +61,7 @@ def rewrite(text):
 
 
 new, _ = rewrite(src)
-applied = {r: len(re.findall(p, new)) for r, p in [("R17", r"let mut self_ = self;"), ("R18", r"r18_i\d+: usize"), ("R19", r"None => None, Some\(c\)"), ("R2", r"G0_: Sink"), ("R21", r"G0_: Node"), ("R14", r"_p0"), ("R4", r"debug_assert!\(\(")]}
+applied = {r: len(re.findall(p, new)) for r, p in [("R17", r"let mut self_ = self;"), ("R18", r"r18_i\d+: usize"), ("R19", r"None => None, Some\(c\)"), ("R2", r"G0_: Sink"), ("R21", r"G0_: Node"), ("R22", r"r22_i\d+: usize"), ("R14", r"_p0"), ("R4", r"debug_assert!\(\(")]}
 missing = [r for r, n in applied.items() if n == 0]
 with tempfile.TemporaryDirectory(dir=os.path.join(VERIF, "build") if os.path.isdir(os.path.join(VERIF, "build")) else None) as d:
     outs = []
